@@ -8,6 +8,7 @@ import (
 	"encoding/hex"
 	"fmt"
 	"os"
+	"regexp"
 	"strconv"
 	"strings"
 	"time"
@@ -213,13 +214,34 @@ func cancelled(cc *c56.Compiled, inA, inB any, vars []any, k int) (ra, rb, start
 	return ra, rb, started, tail, "done", ""
 }
 
+var errTextFamily = regexp.MustCompile(`^(getpath|setpath|delpaths)\(.*\) cannot be applied to`)
+
+// recheck compares every emitted value with its snapshot at emission.  One narrow family is tagged "errtext:":
+// the emitted value is an ERROR of getpath/setpath/delpaths whose message previews the container it was
+// applied to and renders it lazily; that container is the accumulator of an update reduction (owned by its
+// allocator) and keeps being updated in place when the iterator is advanced after the error, so the TEXT of the
+// error drifts although no JSON value the run emitted (and nothing of the caller's) changes.
 func recheck(what string, vals []emitted) string {
 	for i, e := range vals {
 		if s := c56.Snap(e.val); s != e.snap {
+			if err, isErr := e.val.(error); isErr && strings.HasPrefix(e.snap, "(err ") && errTextFamily.MatchString(err.Error()) {
+				if _, isVal := err.(gojq.ValueError); !isVal {
+					return fmt.Sprintf("errtext: %s: output #%d is an error of getpath/setpath/delpaths whose message changed after emission: was %s now %s",
+						what, i, clip(hexMsg(e.snap)), clip(err.Error()))
+				}
+			}
 			return fmt.Sprintf("%s: output #%d changed after emission: was %s now %s", what, i, clip(e.snap), clip(s))
 		}
 	}
 	return ""
+}
+
+func hexMsg(snap string) string {
+	h := strings.TrimSuffix(strings.TrimPrefix(snap, "(err "), ")")
+	if b, err := hex.DecodeString(h); err == nil {
+		return string(b)
+	}
+	return snap
 }
 
 func clip(s string) string {
